@@ -1,7 +1,7 @@
 """C17 - FFT Taylor coefficients (fornberg.taylor / derivative) are within their reported error.
 
 Oracle: closed-form Taylor coefficients of exp(a z), sin/cos(a z), 1/(b - z), log(b + z),
-(b + z)^p and polynomials in 60-digit mpmath (nverif.oracle.taylorfam); Cauchy products and jets
+(b + z)^p and polynomials in 200-digit mpmath (nverif.oracle.taylorfam); Cauchy products and jets
 (nverif.oracle.jets) for sums, products and entire-outer compositions.  The distance d from z0 to
 the nearest singularity is known by construction (poles / branch points are placed).
 
@@ -194,14 +194,17 @@ class C17(Prop):
             '|c_k| R^k >= 1e-6 max|f| on the final circle for at least half of k <= n (the coefficients '
             'are resolvable); distinct by (spec, z0, n, configuration).')
     assumptions = (
-        'mpmath at 60 digits evaluates the closed-form coefficients and the jet recurrences exactly '
-        'enough (cross-checked against mpmath.taylor at 80 digits during development)',
+        'mpmath at 200 digits evaluates the closed-form coefficients and the jet recurrences exactly '
+        'enough (Cauchy products of e.g. exp(a z) exp(b z) lose k*log10((|a|+|b|)/|a+b|) digits: 56 at '
+        'k = 39 for a = -0.5233, b = 0.5623, which made a 60-digit oracle 4e-6 wrong); an accuracy '
+        'violation is only raised after the oracle was recomputed with 600 digits',
         'max|f| on the final circle is bounded by 1.5 x the maximum over 256 equispaced points '
         '(evaluated with numpy, the callable the user wrote)',
-        'K and kappa are calibrated constants (>= 10x above the worst ratio of the unchanged tree '
-        'over the 8 calibration seeds once the known defect classes are set aside; the floor is the '
-        'one of the property text, on the *final* circle, although the returned coefficient may stem '
-        'from an earlier, smaller circle - this is why kappa is as large as 1e7)',
+        'K and kappa are calibrated constants: on the tree with the per-stage FFT floor in the error '
+        'estimate (fix of F7) the worst err/error_estimate over the 8 calibration seeds is 15, so K = 300 '
+        'has 20x head-room and the floor term only matters where the estimate is 0; kappa = 1e3 (the floor '
+        'is the one of the property text, on the *final* circle); cases where a circle went beyond the '
+        'nearest singularity are tracked apart',
         '"iteration cap reached" is observed as: the function was evaluated on max_iter circles '
         '(counted by the callable itself). Asserted: failed => max_iter circles and '
         'info.iterations == max_iter - 1 (info.iterations is the 0-based loop index); fewer than '
@@ -336,7 +339,7 @@ class C17(Prop):
                                            'inf' if math.isinf(d) else '%.4g' % d),
                                         failed=failed, degenerate=degenerate, all_default=True,
                                         entire=math.isinf(d), direction_changes=changes,
-                                        beyond_singularity=beyond)
+                                        beyond_singularity=beyond, final_beyond=bool(R >= d * (1 - 1e-9)))
                     ctx.count('EXPLORE: nominal %s, %d direction change(s), beyond=%s'
                               % (status, changes, beyond))
         if failed or degenerate:
@@ -352,24 +355,36 @@ class C17(Prop):
         beyond = max(max(radii), R) >= d * (1 - 1e-9)
         if beyond:
             ctx.count('some circle beyond the nearest singularity')
+        if R >= d * (1 - 1e-9):
+            ctx.count('final circle beyond the nearest singularity')
         if not (math.isfinite(maxf) and R > 0):
             ctx.count('max|f| on the final circle overflows (floor infinite)')
             return
-        resolvable = 0
         worst = (-1.0, None)
-        rows, bad = [], []
-        for k in range(n + 1):
-            ck = complex(exact[k])
-            err = float(abs(mp.mpc(complex(coefs[k])) - exact[k])) if np.isfinite(coefs[k]) else math.inf
-            floor = EPS * maxf / R ** k
-            e = float(est[k])
-            tol = K_EST * e + KAPPA * floor
-            ratio = err / tol if tol > 0 else (0.0 if err == 0 else math.inf)
-            if abs(ck) * R ** k >= 1e-6 * maxf / SAFETY_MAXF:
-                resolvable += 1
-            rows.append((k, ck, err, floor, e, ratio))
-            if not (ratio <= 1.0):
-                bad.append(len(rows) - 1)
+
+        def table(exact):
+            rows, bad, resolvable = [], [], 0
+            for k in range(n + 1):
+                ck = complex(exact[k])
+                err = float(abs(mp.mpc(complex(coefs[k])) - exact[k])) if np.isfinite(coefs[k]) else math.inf
+                floor = EPS * maxf / R ** k
+                e = float(est[k])
+                tol = K_EST * e + KAPPA * floor
+                ratio = err / tol if tol > 0 else (0.0 if err == 0 else math.inf)
+                if abs(ck) * R ** k >= 1e-6 * maxf / SAFETY_MAXF:
+                    resolvable += 1
+                rows.append((k, ck, err, floor, e, ratio))
+                if not (ratio <= 1.0):
+                    bad.append(k)
+            return rows, bad, resolvable
+
+        rows, bad, resolvable = table(exact)
+        if bad:
+            # before reporting: the oracle again with 600 digits (Cauchy products cancel)
+            exact = tf.exact_coefs(spec, case['z0'], n + 1, dps=600)
+            rows, bad2, resolvable = table(exact)
+            ctx.count('oracle re-run at 600 digits: %s' % ('confirmed' if bad2 == bad else 'changed the verdict'))
+            bad = bad2
         isolated = len(bad) <= max(1, (n + 1) // 8)    # F7 hits a few FFT indices; a scaling bug hits them all
         for i, (k, ck, err, floor, e, ratio) in enumerate(rows):
             if i in bad:
@@ -391,16 +406,12 @@ class C17(Prop):
                        'inf' if math.isinf(d) else '%.4g' % d, max(radii), len(bad), n + 1),
                     k=k, m=m, err=err, estimate=e, floor=floor, estimate_zero=est_zero,
                     k_over_m=_k_over_m(k, m), beyond_singularity=beyond, garbage=garbage,
-                    coef_is_zero=bool(coefs[k] == 0), isolated=isolated, n_bad=len(bad))
+                    coef_is_zero=bool(coefs[k] == 0), isolated=isolated, n_bad=len(bad),
+                    final_beyond=bool(R >= d * (1 - 1e-9)))
             summ = dict(call=desc, k=k, err=err, estimate=e, floor=floor)
             if beyond:      # near-misses of the beyond-singularity class are tracked apart
                 ctx.track('err/(K*est + kappa*floor) [some circle beyond the singularity]', ratio, summ)
                 continue
-            if os.environ.get('NVERIF_C17_GRID'):
-                for K_ in (30.0, 100.0):
-                    for ka_ in (1e1, 1e2, 1e3, 1e4, 1e5):
-                        t_ = K_ * e + ka_ * floor
-                        ctx.track('TMP K=%g kappa=%g' % (K_, ka_), err / t_ if t_ > 0 else 0.0, summ)
             if K_EST * e >= KAPPA * floor:
                 ctx.track('err/estimate (K*est >= kappa*floor)', err / e, summ)
             elif floor > 0:
@@ -425,7 +436,8 @@ class C17(Prop):
             key['n'] = case.get('n')
             key['default_r'] = case.get('r') is None
         for name in ('estimate_zero', 'k_over_m', 'beyond_singularity', 'garbage', 'all_default', 'failed',
-                     'degenerate', 'entire', 'direction_changes', 'field', 'coef_is_zero', 'isolated'):
+                     'degenerate', 'entire', 'direction_changes', 'field', 'coef_is_zero', 'isolated',
+                     'final_beyond'):
             if name in violation.details:
                 key[name] = violation.details[name]
         return key
